@@ -17,16 +17,25 @@ TYPES = {
     # constants that can be assigned THROUGH: an object with a number field and a list field, a list of lists
     "obj": ("Bx", "Bx()", "Bx()", True),
     "nested": ("[[int...]...]", "[[1, 2], [3]]", "[[9]]", True),
+    # constants of OPTIONAL type that are assigned through after unwrapping them (`get`, `or`)
+    "optobj": ("Bx?", "Bx()", "Bx()", True),
+    "optlist": ("[int...]?", "[1, 2]", "[9]", True),
 }
-PRELUDE = {"obj": "class Bx {\n v: int\n items: [int...]\n constructor(self) {\n  self.v = 1\n  self.items = [1, 2]\n }\n}"}
-OBSERVE = {"obj": "cst.v.to_str() + cst.items.to_str()", "nested": "cst"}
-INIT_PRINT = {"int": "5", "bool": "true", "str": "init", "float": "1.5", "list": "[1, 2]", "optint": "5", "obj": "1[1, 2]", "nested": "[[1, 2], [3]]"}
+PRELUDE = {"optobj": "class Bx {\n v: int\n items: [int...]\n constructor(self) {\n  self.v = 1\n  self.items = [1, 2]\n }\n}\nalt = Bx()\naltl: [int...] = [3]", "optlist": "altl: [int...] = [3]", "obj": "class Bx {\n v: int\n items: [int...]\n constructor(self) {\n  self.v = 1\n  self.items = [1, 2]\n }\n}"}
+OBSERVE = {"obj": "cst.v.to_str() + cst.items.to_str()", "nested": "cst", "optobj": "(get cst).v.to_str() + (get cst).items.to_str()", "optlist": "get cst"}
+INIT_PRINT = {"int": "5", "bool": "true", "str": "init", "float": "1.5", "list": "[1, 2]", "optint": "5", "obj": "1[1, 2]", "nested": "[[1, 2], [3]]", "optobj": "1[1, 2]", "optlist": "[1, 2]"}
 
 WRITES = ["assign", "typed", "+=", "-=", "*=", "/=", "%=", "?=stmt", "?=if", "?=while", "modify", "modify-typed",
           "index", "index+=", "loopcounter", "unpack",
           # assignment THROUGH the name: field and nested paths, with and without a parenthesised inner step
-          "field", "field+=", "field-list", "(field)[i]", "(field)[i]+=", "field.m()[i]+=", "index2", "index2+=", "(index)[i]", "(index)[i]+=", "elem"]
-CONTEXTS = ["same", "block", "block2", "while", "from", "fn", "fn-in-fn", "method", "else", "method-sibling-param", "method-ctor-param", "method-later-sibling-param"]
+          "field", "field+=", "field-list", "(field)[i]", "(field)[i]+=", "field.m()[i]+=", "index2", "index2+=", "(index)[i]", "(index)[i]+=", "elem",
+          # ... and through the unwrapped value of an optional constant
+          "(get).field+=", "(or).field+=", "((get).field)[i]+=", "(get)[i]+=", "(or)[i]+=",
+          # a type alias declared with the constant's name, then an assignment to the name
+          "alias-then-assign"]
+CONTEXTS = ["same", "block", "block2", "while", "from", "fn", "fn-in-fn", "method", "else", "method-sibling-param", "method-ctor-param", "method-later-sibling-param",
+            # the nested function first makes a LOCAL with the constant's name, then writes from a nested block (a `modify` there still means the captured constant)
+            "fn-local-then-block"]
 DECLS = ["module", "function", "block"]
 
 
@@ -34,7 +43,9 @@ PATH_FORMS = {"field": ("obj", "N.v = 9"), "field+=": ("obj", "N.v += 9"), "fiel
               "(field)[i]": ("obj", "(N.items)[0] = 9"), "(field)[i]+=": ("obj", "(N.items)[0] += 9"),
               "field.m()[i]+=": ("obj", "(N.items.clone())[0] += 9"),
               "index2": ("nested", "N[0][1] = 9"), "index2+=": ("nested", "N[0][1] += 9"),
-              "(index)[i]": ("nested", "(N[0])[1] = 9"), "(index)[i]+=": ("nested", "(N[0])[1] += 9"), "elem": ("nested", "N[0] = [7]")}
+              "(index)[i]": ("nested", "(N[0])[1] = 9"), "(index)[i]+=": ("nested", "(N[0])[1] += 9"), "elem": ("nested", "N[0] = [7]"),
+              "(get).field+=": ("optobj", "(get N).v += 9"), "(or).field+=": ("optobj", "((N) or alt).v += 9"), "((get).field)[i]+=": ("optobj", "((get N).items)[0] += 9"),
+              "(get)[i]+=": ("optlist", "(get N)[0] += 9"), "(or)[i]+=": ("optlist", "((N) or altl)[0] += 9")}
 
 
 def write_stmt(w, name, ty):
@@ -72,7 +83,9 @@ def write_stmt(w, name, ty):
     if w in PATH_FORMS:
         need, text = PATH_FORMS[w]
         return text.replace("N", name) if ty == need else None
-    if ty in ("obj", "nested") and w not in ("assign", "typed", "modify", "modify-typed", "unpack"):
+    if w == "alias-then-assign":
+        return f"type {name} {tt}\n{name} = {other}" if ty in ("int", "str", "obj", "list") else None
+    if ty in ("obj", "nested", "optobj", "optlist") and w not in ("assign", "typed", "modify", "modify-typed", "unpack"):
         return None
     if w == "loopcounter":
         return f"from 0 to 3, {name} {{\n}}" if ty == "int" else None
@@ -115,6 +128,8 @@ def wrap(ctx, stmt, tt="int"):
         return "from 0 to 1 {\n" + ind + "\n}"
     if ctx == "fn":
         return "inner = fn() {\n" + ind + "\n}\ninner()"
+    if ctx == "fn-local-then-block":
+        return "inner = fn() {\n cst = SHADOW\n if true {\n" + "\n".join("  " + l for l in stmt.split("\n")) + "\n }\n}\ninner()"
     if ctx == "fn-in-fn":
         return "outer2 = fn() {\n inner2 = fn() {\n" + "\n".join("  " + l for l in stmt.split("\n")) + "\n }\n inner2()\n}\nouter2()"
     if ctx == "method":
@@ -133,7 +148,7 @@ def program(decl, w, ctx, ty, const, pre="none"):
     stmt = write_stmt(w, "cst", ty)
     if stmt is None:
         return None
-    if w.startswith("modify") and ctx not in ("fn", "fn-in-fn", "method") and not ctx.startswith("method-"):
+    if w.startswith("modify") and ctx not in ("fn", "fn-in-fn", "method", "fn-local-then-block") and not ctx.startswith("method-"):
         return None   # `modify` outside a function is a different (always rejected) misuse
     kw = "const " if const else ""
     declline = f"{kw}cst: {tt} = {init}"
@@ -155,7 +170,7 @@ def program(decl, w, ctx, ty, const, pre="none"):
         before = [f"if true {{\n cst: {tt} = {other}\n}}"]
     elif pre == "const-before-in-sibling-block":
         before = [f"if true {{\n const cst: {tt} = {other}\n}}"]
-    body = [give_fn(ty)] + before + [declline, wrap(ctx, stmt, tt), "print " + OBSERVE.get(ty, "cst")]
+    body = [give_fn(ty)] + before + [declline, wrap(ctx, stmt, tt).replace("SHADOW", other), "print " + OBSERVE.get(ty, "cst")]
     text = "\n".join(body)
     pre_ = PRELUDE[ty] + "\n" if ty in PRELUDE else ""
     if decl == "module":
@@ -199,6 +214,14 @@ for _member in ["cmem", "vmem", "lmem", "fmem"]:
         for _ctx in ["same", "block", "fn", "method"]:
             SPECIAL.append(("member-" + _member, _w, _ctx, _stmt % _member))
 
+# the module bound to a second name (`ma = mod`), members written through that name
+for _member in ["cmem", "vmem", "lmem"]:
+    for _w, _stmt in [("assign", "ma.%s = 7"), ("+=", "ma.%s += 1"), ("index", "ma.%s[0] = 9"), ("index+=", "ma.%s[0] += 9"), ("?=stmt", "ma.%s ?= give()")]:
+        if (_member == "lmem") != (_w.startswith("index")):
+            continue
+        for _ctx in ["same", "block", "fn", "method"]:
+            SPECIAL.append(("aliasmember-" + _member, _w, _ctx, _stmt % _member))
+
 # members brought in by name (`import cmem, vmem, lmem, fmem from mod`) and written through the bare name
 for _member in ["cmem", "vmem", "lmem", "fmem"]:
     for _w, _stmt in [("assign", "%s = 7"), ("typed", "%s: int = 7"), ("+=", "%s += 1"), ("index", "%s[0] = 9"), ("index+=", "%s[0] += 9"),
@@ -234,6 +257,8 @@ def special_program(kind, stmt, ctx):
         val = stmt.replace("fmem = 7", "fmem = fn() -> int {\n return 7\n}")
         return {"x.ms": "\n".join(["import mod", give, wrap(ctx, val), "print mod.peek()", "print mod.fmem()"]) + "\n",
                 "mod.ms": MOD_SRC}, ["11", "5"]
+    if kind.startswith("aliasmember-"):
+        return {"x.ms": "\n".join(["import mod", "ma = mod", give, wrap(ctx, stmt), "print mod.peek()"]) + "\n", "mod.ms": MOD_SRC}, ["11"]
     if kind.startswith("named-"):
         val = stmt.replace("fmem = 7", "fmem = fn() -> int {\n return 7\n}")
         # the importer's view of the four members after the write, then the module's own view
@@ -255,7 +280,7 @@ class C10(Check):
     chunksize = 16
 
     def layers(self, tier):
-        tys = ["int", "str", "list", "obj", "nested"] if tier == "quick" else list(TYPES)
+        tys = ["int", "str", "list", "obj", "nested", "optobj", "optlist"] if tier == "quick" else list(TYPES)
         gen = [("g", d, w, c, t) for d, w, c, t in itertools.product(DECLS, WRITES, CONTEXTS, tys)]
         sp = [("s", i) for i in range(len(SPECIAL))]
         hist = [("g", d, w, c, t, pr) for pr in PRES for d in DECLS for w in ("assign", "typed", "+=", "?=stmt", "modify", "index", "index+=", "field", "field+=", "loopcounter", "unpack")
@@ -294,7 +319,7 @@ class C10(Check):
             detail = {"files": files, "res": res.brief()}
             rejected = driver.compile_rejected(res)
             in_fn = ctx in ("fn", "fn-in-fn", "method", "own-ctor", "own-method", "own-method-closure")
-            plain_local = in_fn and not kind.startswith("member-") and not w.startswith("modify") and not w.startswith("index")
+            plain_local = in_fn and not kind.startswith("member-") and not kind.startswith("aliasmember-") and not w.startswith("modify") and not w.startswith("index")
             if res.cls in ("panic", "abort", "timeout"):
                 if "compiler/src" in res.err:
                     return {"outcome": "compiler-panic", "nontrivial": True, "tags": ["compiler-panic"]}
@@ -327,7 +352,7 @@ class C10(Check):
         detail = {"files": {"x.ms": src, "control.ms": ctl}, "res": res.brief(), "control": rc.brief()}
         rejected = driver.compile_rejected(res)
         init_print = INIT_PRINT[ty]
-        in_fn = ctx in ("fn", "fn-in-fn", "method") or ctx.startswith("method-")
+        in_fn = ctx in ("fn", "fn-in-fn", "method", "fn-local-then-block") or ctx.startswith("method-")
         tags = [f"w-{w}", f"c-{ctx}", "control-ok" if control_ok else "control-rejected"]
         if res.cls in ("panic", "abort", "timeout"):
             if "compiler/src" in res.err:
@@ -335,7 +360,7 @@ class C10(Check):
             bad("crash", f"{res.cls}: {res.err[-200:]}", detail)
         elif not rejected:
             unchanged = res.exit == 0 and res.lines()[-1:] == [init_print]
-            local_ok = in_fn and not w.startswith("modify") and w not in PATH_FORMS and not w.startswith("index")
+            local_ok = in_fn and not w.startswith("modify") and ((w not in PATH_FORMS and not w.startswith("index")) or ctx == "fn-local-then-block")
             if unchanged and local_ok:
                 pass        # declared a local in the nested function; the constant is intact
             elif unchanged:
